@@ -55,6 +55,7 @@ def pseudo(src: bytes, dst: bytes, proto: int, length: int) -> bytes:
 # legitimate lower-layer variations, switched on per capture by VARIATION (a dict; set by the harness, default none):
 #   tcp_opts: TCP timestamp option (12 option bytes, data offset 8)     ip6_ext: an IPv6 Destination Options header before the transport header
 #   ip4_opts: an IPv4 NOP/NOP/NOP/EOL option word (IHL 6)               eth_pad: short frames padded to the 60-byte Ethernet minimum
+#   eth_fcs: every frame carries a 4-byte trailer behind the IP datagram (captured FCS / mirror-port trailer)
 VARIATION = {}
 
 
@@ -102,6 +103,8 @@ def eth_frame(smac, dmac, ip_pkt):
     fr = dmac + smac + struct.pack("!H", et) + ip_pkt
     if VARIATION.get("eth_pad") and len(fr) < 60:
         fr += b"\x00" * (60 - len(fr))
+    if VARIATION.get("eth_fcs"):                 # the capture kept the 4-byte frame check sequence (or a mirror-port trailer) behind the IP datagram
+        fr += struct.pack("!I", (len(fr) * 2654435761) & 0xFFFFFFFF)
     return fr
 
 
